@@ -89,6 +89,12 @@ class NewtonRaphsonGeometry(StandardGeometry, ABC):
             intersections -= distance[:, None] * ray_directions
             if np.max(np.abs(dz)) < self.tol:
                 break
+        else:
+            # iteration limit reached: rays that did not converge onto the
+            # surface are reported as missing it
+            z_surface = self.sag(intersections[:, 0], intersections[:, 1])
+            dz = intersections[:, 2] - z_surface
+            intersections[~(np.abs(dz) < self.tol)] = np.nan
         position = np.column_stack((rays.x, rays.y, rays.z))
         return np.linalg.norm(intersections - position, axis=1)
 
